@@ -27,8 +27,21 @@ def plainKind (k : RegKind) : Bool := k != .gpbhi && k != .gpb && k != .sreg
 
 /-- the opcode word the class hands to `EmitVexEvexR`: `_Lx` classes add LL from the sizes of the first two operands -/
 def finalOp (e : Entry) (lxEnc : Nat) : BitVec 32 :=
-  if e.enc == lxEnc then
+  if e.enc == 0x7B then          -- VexRvmi_KEvex
+    e.mainOp ||| ((if e.kinds.getD 0 .none == .k then 1#32 else 0#32) <<< 12)
+  else if e.enc == 0x76 || e.enc == 0x7D then          -- VexRvm_Lx_KEvex / VexRvmi_Lx_KEvex: EVEX is forced when the destination is a mask register
+    (e.mainOp ||| ((if e.kinds.getD 0 .none == .k then 1#32 else 0#32) <<< 12)) |||
+      opcodeLBySize ((Op.reg (rtypeOf (e.kinds.getD 0 .none)) 0).rmSize ||| (Op.reg (rtypeOf (e.kinds.getD 1 .none)) 0).rmSize)
+  else if e.enc == lxEnc then
     e.mainOp ||| opcodeLBySize ((Op.reg (rtypeOf (e.kinds.getD 0 .none)) 0).rmSize ||| (Op.reg (rtypeOf (e.kinds.getD 1 .none)) 0).rmSize)
+  else if e.enc == 0x83 || e.enc == 0x84 then      -- VexRmMr / VexRmMr_Lx: load = main opcode, store ([rm, reg] entries) = alternative opcode, LL kept
+    let base := if e.enc == 0x84 then
+        e.mainOp ||| opcodeLBySize ((Op.reg (rtypeOf (e.kinds.getD 0 .none)) 0).rmSize ||| (Op.reg (rtypeOf (e.kinds.getD 1 .none)) 0).rmSize)
+      else e.mainOp
+    let store : Bool := match e.rule.ops with | f0 :: _ => f0.role == .rm | _ => false
+    if store then (base &&& kLL_Mask) ||| e.altOp else base
+  else if e.enc == 0x73 then      -- VexRvm_Wx: W from a 64-bit destination or an 8-byte r/m operand
+    e.mainOp ||| (if e.kinds.getD 0 .none == .gpq || (Op.reg (rtypeOf (e.kinds.getD 2 .none)) 0).rmSize == 8 then kW else 0#32)
   else e.mainOp
 
 def noFix (f : FormOp) : Bool := f.alts.all fun a => match a with | .reg _ (some _) => false | _ => true
@@ -119,7 +132,7 @@ theorem shapeOk3_spec (r : Rule) (f0 f1 f2 : FormOp) (k0 k1 k2 : RegKind) (hops 
 def entryOkRvm (e : Entry) : Bool :=
   match e.rule.ops, e.kinds with
   | [f0, f1, f2], [k0, k1, k2] =>
-    (e.enc == 0x72 || e.enc == 0x75) && (vexRuleOk e.rule 0 && (rowAgreeOk e.rule (finalOp e 0x75) && (e.iflags &&& 0x1000000#32 == 0#32 &&
+    (e.enc == 0x72 || e.enc == 0x75 || e.enc == 0x73 || e.enc == 0x76) && (vexRuleOk e.rule 0 && (rowAgreeOk e.rule (finalOp e 0x75) && (e.iflags &&& 0x1000000#32 == 0#32 &&
     (f0.role == .reg && (f1.role == .vvvv && (f2.role == .rm && shapeOk3 e.rule f0 f1 f2 k0 k1 k2))))))
   | _, _ => false
 
@@ -235,14 +248,14 @@ theorem shapeOk3_specB (r : Rule) (f0 f1 f2 : FormOp) (k0 k1 k2 : RegKind) (h : 
 def entryOkRm (e : Entry) : Bool :=
   match e.rule.ops, e.kinds with
   | [f0, f2], [k0, k2] =>
-    (e.enc == 0x68 || e.enc == 0x6B) && (vexRuleOk e.rule 0 && (rowAgreeOk e.rule (finalOp e 0x6B) && (e.iflags &&& 0x1000000#32 == 0#32 &&
+    (e.enc == 0x68 || e.enc == 0x6B || e.enc == 0x83 || e.enc == 0x84) && (vexRuleOk e.rule 0 && (rowAgreeOk e.rule (finalOp e 0x6B) && (e.iflags &&& 0x1000000#32 == 0#32 &&
     (f0.role == .reg && (f2.role == .rm && shapeOk2 e.rule f0 f2 k0 k2)))))
   | _, _ => false
 
 def entryOkRvmi (e : Entry) : Bool :=
   match e.rule.ops, e.kinds with
   | [f0, f1, f2, f3], [k0, k1, k2] =>
-    (e.enc == 0x7A || e.enc == 0x7C) && (vexRuleOk e.rule 1 && (rowAgreeOk e.rule (finalOp e 0x7C) && (e.iflags &&& 0x1000000#32 == 0#32 &&
+    (e.enc == 0x7A || e.enc == 0x7C || e.enc == 0x7B || e.enc == 0x7D) && (vexRuleOk e.rule 1 && (rowAgreeOk e.rule (finalOp e 0x7C) && (e.iflags &&& 0x1000000#32 == 0#32 &&
     (f0.role == .reg && (f1.role == .vvvv && (f2.role == .rm && (f3.role == .imm && (immBitsOf f3 == 8 && shapeOk3 e.rule f0 f1 f2 k0 k1 k2))))))))
   | _, _ => false
 
